@@ -1,17 +1,118 @@
-//! Verification model of `std::collections::{HashMap, HashSet}` (Vec-backed, linear search by
-//! `Eq`), re-exporting the real ordered collections.  Kani cannot get through hashbrown
-//! (DESIGN.md §2.5).  The verification build rewrites the path prefix `std::collections` to
-//! `::vcollections`; nothing else in the bgpfu-rs sources changes.
+//! Verification model of `std::collections::{HashMap, HashSet}` (fixed-capacity slot arrays,
+//! linear search by `Eq`), re-exporting the real ordered collections.  Kani cannot get through
+//! hashbrown (DESIGN.md §2.5).  The verification build rewrites the path prefix
+//! `std::collections` to `::vcollections`; nothing else in the bgpfu-rs sources changes.
 //!
 //! Iteration order: insertion order.  When [`set_nondet_order`]`(true)` is in force (Kani only)
 //! every `iter()`/`keys()`/`values()`/`into_iter()` starts at a nondeterministic rotation and
-//! direction, which for ≤ 3 elements yields every permutation — std's order is unspecified, so
+//! direction, which for <= 3 elements yields every permutation — std's order is unspecified, so
 //! code whose observable result depends on it must be correct for all of them.
-pub use std::collections::{btree_map, btree_set, BTreeMap, BTreeSet, BinaryHeap, LinkedList, VecDeque, vec_deque};
+pub use std::collections::{btree_map, btree_set, vec_deque, BTreeMap, BTreeSet, BinaryHeap, LinkedList, VecDeque};
 
 use std::borrow::Borrow;
 use std::fmt;
 use std::hash::Hash;
+
+/// Capacity of every map / set.  Storage is a fixed array of slots, not a `Vec`: pushing onto a
+/// `Vec` of symbolic length makes CBMC explore the reallocation path (a memcpy of symbolic
+/// size) at every insertion.  Exceeding the capacity is a panic (i.e. a reported failure).
+pub const CAP: usize = 14;
+
+/// Sparse slot storage: a slot is `Some(value)` or free; removing leaves a hole.  Keeping
+/// values where they were put (instead of compacting) means that a set built by a harness with
+/// [`HashSet::from_slots`] has a *concrete* value in every slot and only the presence bits are
+/// symbolic, so comparisons against constants fold away under the solver.
+pub(crate) struct Slots<T> {
+    slot: [Option<T>; CAP],
+}
+
+impl<T> Slots<T> {
+    const fn new() -> Self {
+        Self { slot: [const { None }; CAP] }
+    }
+    fn len(&self) -> usize {
+        let mut n = 0;
+        let mut i = 0;
+        while i < CAP {
+            if self.slot[i].is_some() {
+                n += 1;
+            }
+            i += 1;
+        }
+        n
+    }
+    fn is_empty(&self) -> bool {
+        self.len() == 0
+    }
+    /// put `v` into the first free slot; returns its index
+    fn push(&mut self, v: T) -> usize {
+        let mut i = 0;
+        while i < CAP {
+            if self.slot[i].is_none() {
+                self.slot[i] = Some(v);
+                return i;
+            }
+            i += 1;
+        }
+        panic!("vcollections: capacity exceeded (model bound)");
+    }
+    #[inline]
+    fn at(&self, i: usize) -> Option<&T> {
+        self.slot[i].as_ref()
+    }
+    #[inline]
+    fn get(&self, i: usize) -> &T {
+        match &self.slot[i] {
+            Some(v) => v,
+            None => unreachable!(),
+        }
+    }
+    #[inline]
+    fn get_mut(&mut self, i: usize) -> &mut T {
+        match &mut self.slot[i] {
+            Some(v) => v,
+            None => unreachable!(),
+        }
+    }
+    fn remove(&mut self, i: usize) -> T {
+        self.slot[i].take().expect("vcollections: remove of empty slot")
+    }
+    fn clear(&mut self) {
+        let mut k = 0;
+        while k < CAP {
+            self.slot[k] = None;
+            k += 1;
+        }
+    }
+    fn take_at(&mut self, i: usize) -> Option<T> {
+        self.slot[i].take()
+    }
+    fn retain_mut<F: FnMut(&mut T) -> bool>(&mut self, mut f: F) {
+        let mut i = 0;
+        while i < CAP {
+            let keep = match &mut self.slot[i] {
+                Some(v) => f(v),
+                None => true,
+            };
+            if !keep {
+                self.slot[i] = None;
+            }
+            i += 1;
+        }
+    }
+}
+
+impl<T: Clone> Clone for Slots<T> {
+    fn clone(&self) -> Self {
+        let mut out = Self::new();
+        let mut i = 0;
+        while i < CAP {
+            out.slot[i] = self.slot[i].clone();
+            i += 1;
+        }
+        out
+    }
+}
 
 static mut NONDET_ORDER: bool = false;
 
@@ -38,7 +139,7 @@ fn order_choice(_len: usize) -> (usize, bool) {
 
 /// Position iterator implementing the (possibly nondeterministic) order.
 #[derive(Clone, Debug)]
-struct Order {
+pub struct Order {
     len: usize,
     start: usize,
     rev: bool,
@@ -46,9 +147,10 @@ struct Order {
 }
 
 impl Order {
-    fn new(len: usize) -> Self {
-        let (start, rev) = order_choice(len);
-        Self { len, start, rev, done: 0 }
+    /// order over all `CAP` slot indices (iterators skip the free ones)
+    fn new(_len: usize) -> Self {
+        let (start, rev) = order_choice(CAP);
+        Self { len: CAP, start, rev, done: 0 }
     }
     fn next(&mut self) -> Option<usize> {
         if self.done >= self.len {
@@ -70,18 +172,18 @@ impl Order {
 
 #[derive(Clone)]
 pub struct HashMap<K, V> {
-    items: Vec<(K, V)>,
+    items: Slots<(K, V)>,
 }
 
 impl<K, V> Default for HashMap<K, V> {
     fn default() -> Self {
-        Self { items: Vec::new() }
+        Self::new()
     }
 }
 
 impl<K, V> HashMap<K, V> {
-    pub fn new() -> Self {
-        Self { items: Vec::new() }
+    pub const fn new() -> Self {
+        Self { items: Slots::new() }
     }
     pub fn with_capacity(_: usize) -> Self {
         Self::new()
@@ -104,17 +206,18 @@ impl<K, V> HashMap<K, V> {
     pub fn values(&self) -> hash_map::Values<'_, K, V> {
         hash_map::Values { inner: self.iter() }
     }
-    pub fn values_mut(&mut self) -> impl Iterator<Item = &mut V> {
-        self.items.iter_mut().map(|(_, v)| v)
-    }
-    pub fn iter_mut(&mut self) -> impl Iterator<Item = (&K, &mut V)> {
-        self.items.iter_mut().map(|(k, v)| (&*k, v))
-    }
     pub fn into_keys(self) -> impl Iterator<Item = K> {
         self.into_iter().map(|(k, _)| k)
     }
     pub fn into_values(self) -> impl Iterator<Item = V> {
         self.into_iter().map(|(_, v)| v)
+    }
+}
+
+impl<K, V> HashMap<K, V> {
+    /// Model hook: build a map directly from (pairwise distinct keys) optional entries.
+    pub fn from_slots(slots: [Option<(K, V)>; CAP]) -> Self {
+        Self { items: Slots { slot: slots } }
     }
 }
 
@@ -125,8 +228,8 @@ impl<K: Eq + Hash, V> HashMap<K, V> {
         Q: Eq + ?Sized,
     {
         let mut i = 0;
-        while i < self.items.len() {
-            if self.items[i].0.borrow() == k {
+        while i < CAP {
+            if matches!(self.items.at(i), Some(e) if e.0.borrow() == k) {
                 return Some(i);
             }
             i += 1;
@@ -139,7 +242,7 @@ impl<K: Eq + Hash, V> HashMap<K, V> {
         Q: Hash + Eq + ?Sized,
     {
         match self.position(k) {
-            Some(i) => Some(&self.items[i].1),
+            Some(i) => Some(&self.items.get(i).1),
             None => None,
         }
     }
@@ -149,7 +252,7 @@ impl<K: Eq + Hash, V> HashMap<K, V> {
         Q: Hash + Eq + ?Sized,
     {
         match self.position(k) {
-            Some(i) => Some(&mut self.items[i].1),
+            Some(i) => Some(&mut self.items.get_mut(i).1),
             None => None,
         }
     }
@@ -159,7 +262,10 @@ impl<K: Eq + Hash, V> HashMap<K, V> {
         Q: Hash + Eq + ?Sized,
     {
         match self.position(k) {
-            Some(i) => Some((&self.items[i].0, &self.items[i].1)),
+            Some(i) => {
+                let e = self.items.get(i);
+                Some((&e.0, &e.1))
+            }
             None => None,
         }
     }
@@ -172,9 +278,9 @@ impl<K: Eq + Hash, V> HashMap<K, V> {
     }
     pub fn insert(&mut self, k: K, v: V) -> Option<V> {
         match self.position(&k) {
-            Some(i) => Some(std::mem::replace(&mut self.items[i].1, v)),
+            Some(i) => Some(std::mem::replace(&mut self.items.get_mut(i).1, v)),
             None => {
-                self.items.push((k, v));
+                let _ = self.items.push((k, v));
                 None
             }
         }
@@ -206,25 +312,24 @@ impl<K: Eq + Hash, V> HashMap<K, V> {
         }
     }
     pub fn retain<F: FnMut(&K, &mut V) -> bool>(&mut self, mut f: F) {
-        self.items.retain_mut(|(k, v)| f(k, v));
+        self.items.retain_mut(|e| f(&e.0, &mut e.1));
     }
-    pub fn extend_pairs<I: IntoIterator<Item = (K, V)>>(&mut self, iter: I) {
+}
+
+impl<K: Eq + Hash, V> Extend<(K, V)> for HashMap<K, V> {
+    fn extend<I: IntoIterator<Item = (K, V)>>(&mut self, iter: I) {
         for (k, v) in iter {
             let _ = self.insert(k, v);
         }
     }
 }
 
-impl<K: Eq + Hash, V> Extend<(K, V)> for HashMap<K, V> {
-    fn extend<I: IntoIterator<Item = (K, V)>>(&mut self, iter: I) {
-        self.extend_pairs(iter);
-    }
-}
-
 impl<K: Eq + Hash, V> FromIterator<(K, V)> for HashMap<K, V> {
     fn from_iter<I: IntoIterator<Item = (K, V)>>(iter: I) -> Self {
         let mut m = Self::new();
-        m.extend_pairs(iter);
+        for (k, v) in iter {
+            let _ = m.insert(k, v);
+        }
         m
     }
 }
@@ -241,10 +346,12 @@ impl<K: Eq + Hash, V: PartialEq> PartialEq for HashMap<K, V> {
             return false;
         }
         let mut i = 0;
-        while i < self.items.len() {
-            match other.get(&self.items[i].0) {
-                Some(v) if *v == self.items[i].1 => {}
-                _ => return false,
+        while i < CAP {
+            if let Some(e) = self.items.at(i) {
+                match other.get(&e.0) {
+                    Some(v) if *v == e.1 => {}
+                    _ => return false,
+                }
             }
             i += 1;
         }
@@ -255,7 +362,13 @@ impl<K: Eq + Hash, V: Eq> Eq for HashMap<K, V> {}
 
 impl<K: fmt::Debug, V: fmt::Debug> fmt::Debug for HashMap<K, V> {
     fn fmt(&self, f: &mut fmt::Formatter<'_>) -> fmt::Result {
-        f.debug_map().entries(self.items.iter().map(|(k, v)| (k, v))).finish()
+        let mut m = f.debug_map();
+        for i in 0..CAP {
+            if let Some(e) = self.items.at(i) {
+                let _ = m.entry(&e.0, &e.1);
+            }
+        }
+        m.finish()
     }
 }
 
@@ -264,7 +377,7 @@ impl<K, V> IntoIterator for HashMap<K, V> {
     type IntoIter = hash_map::IntoIter<K, V>;
     fn into_iter(self) -> Self::IntoIter {
         let order = Order::new(self.items.len());
-        hash_map::IntoIter { items: self.items.into_iter().map(Some).collect(), order }
+        hash_map::IntoIter { items: self.items, order }
     }
 }
 
@@ -284,8 +397,7 @@ impl<K: Eq + Hash + Borrow<Q>, Q: Eq + Hash + ?Sized, V> std::ops::Index<&Q> for
 }
 
 pub mod hash_map {
-    use super::{HashMap, Order};
-    pub use super::HashMap as Map;
+    use super::{HashMap, Order, Slots};
 
     pub enum Entry<'a, K, V> {
         Occupied(OccupiedEntry<'a, K, V>),
@@ -306,19 +418,19 @@ pub mod hash_map {
 
     impl<'a, K, V> OccupiedEntry<'a, K, V> {
         pub fn key(&self) -> &K {
-            &self.map.items[self.index].0
+            &self.map.items.get(self.index).0
         }
         pub fn get(&self) -> &V {
-            &self.map.items[self.index].1
+            &self.map.items.get(self.index).1
         }
         pub fn get_mut(&mut self) -> &mut V {
-            &mut self.map.items[self.index].1
+            &mut self.map.items.get_mut(self.index).1
         }
         pub fn into_mut(self) -> &'a mut V {
-            &mut self.map.items[self.index].1
+            &mut self.map.items.get_mut(self.index).1
         }
         pub fn insert(&mut self, v: V) -> V {
-            std::mem::replace(&mut self.map.items[self.index].1, v)
+            std::mem::replace(&mut self.map.items.get_mut(self.index).1, v)
         }
         pub fn remove(self) -> V {
             self.map.items.remove(self.index).1
@@ -336,9 +448,8 @@ pub mod hash_map {
             self.key
         }
         pub fn insert(self, v: V) -> &'a mut V {
-            self.map.items.push((self.key, v));
-            let n = self.map.items.len() - 1;
-            &mut self.map.items[n].1
+            let n = self.map.items.push((self.key, v));
+            &mut self.map.items.get_mut(n).1
         }
     }
 
@@ -367,33 +478,30 @@ pub mod hash_map {
                 Entry::Vacant(e) => e.key(),
             }
         }
-        pub fn and_modify<F: FnOnce(&mut V)>(mut self, f: F) -> Self {
-            if let Entry::Occupied(ref mut e) = self {
-                f(e.get_mut());
-            }
-            self
-        }
     }
 
-    #[derive(Clone, Debug)]
+    #[derive(Clone)]
     pub struct Iter<'a, K, V> {
-        pub(super) items: &'a [(K, V)],
+        pub(super) items: &'a Slots<(K, V)>,
         pub(super) order: Order,
     }
     impl<'a, K, V> Iterator for Iter<'a, K, V> {
         type Item = (&'a K, &'a V);
         fn next(&mut self) -> Option<Self::Item> {
-            match self.order.next() {
-                Some(i) => {
-                    let (k, v) = &self.items[i];
-                    Some((k, v))
+            loop {
+                match self.order.next() {
+                    Some(i) => {
+                        if let Some(e) = self.items.at(i) {
+                            return Some((&e.0, &e.1));
+                        }
+                    }
+                    None => return None,
                 }
-                None => None,
             }
         }
     }
 
-    #[derive(Clone, Debug)]
+    #[derive(Clone)]
     pub struct Keys<'a, K, V> {
         pub(super) inner: Iter<'a, K, V>,
     }
@@ -407,7 +515,7 @@ pub mod hash_map {
         }
     }
 
-    #[derive(Clone, Debug)]
+    #[derive(Clone)]
     pub struct Values<'a, K, V> {
         pub(super) inner: Iter<'a, K, V>,
     }
@@ -422,15 +530,21 @@ pub mod hash_map {
     }
 
     pub struct IntoIter<K, V> {
-        pub(super) items: Vec<Option<(K, V)>>,
+        pub(super) items: Slots<(K, V)>,
         pub(super) order: Order,
     }
     impl<K, V> Iterator for IntoIter<K, V> {
         type Item = (K, V);
         fn next(&mut self) -> Option<(K, V)> {
-            match self.order.next() {
-                Some(i) => self.items[i].take(),
-                None => None,
+            loop {
+                match self.order.next() {
+                    Some(i) => {
+                        if let Some(e) = self.items.take_at(i) {
+                            return Some(e);
+                        }
+                    }
+                    None => return None,
+                }
             }
         }
     }
@@ -441,18 +555,18 @@ pub mod hash_map {
 
 #[derive(Clone)]
 pub struct HashSet<T> {
-    items: Vec<T>,
+    items: Slots<T>,
 }
 
 impl<T> Default for HashSet<T> {
     fn default() -> Self {
-        Self { items: Vec::new() }
+        Self::new()
     }
 }
 
 impl<T> HashSet<T> {
-    pub fn new() -> Self {
-        Self { items: Vec::new() }
+    pub const fn new() -> Self {
+        Self { items: Slots::new() }
     }
     pub fn with_capacity(_: usize) -> Self {
         Self::new()
@@ -471,6 +585,14 @@ impl<T> HashSet<T> {
     }
 }
 
+impl<T> HashSet<T> {
+    /// Model hook: build a set directly from (pairwise distinct) optional values, slot `i`
+    /// holding `slots[i]`.  One move: no duplicate check, no compaction, nothing dropped.
+    pub fn from_slots(slots: [Option<T>; CAP]) -> Self {
+        Self { items: Slots { slot: slots } }
+    }
+}
+
 impl<T: Eq + Hash> HashSet<T> {
     fn position<Q>(&self, v: &Q) -> Option<usize>
     where
@@ -478,8 +600,8 @@ impl<T: Eq + Hash> HashSet<T> {
         Q: Eq + ?Sized,
     {
         let mut i = 0;
-        while i < self.items.len() {
-            if self.items[i].borrow() == v {
+        while i < CAP {
+            if matches!(self.items.at(i), Some(e) if e.borrow() == v) {
                 return Some(i);
             }
             i += 1;
@@ -499,7 +621,7 @@ impl<T: Eq + Hash> HashSet<T> {
         Q: Hash + Eq + ?Sized,
     {
         match self.position(v) {
-            Some(i) => Some(&self.items[i]),
+            Some(i) => Some(self.items.get(i)),
             None => None,
         }
     }
@@ -507,15 +629,15 @@ impl<T: Eq + Hash> HashSet<T> {
         if self.position(&v).is_some() {
             false
         } else {
-            self.items.push(v);
+            let _ = self.items.push(v);
             true
         }
     }
     pub fn replace(&mut self, v: T) -> Option<T> {
         match self.position(&v) {
-            Some(i) => Some(std::mem::replace(&mut self.items[i], v)),
+            Some(i) => Some(std::mem::replace(self.items.get_mut(i), v)),
             None => {
-                self.items.push(v);
+                let _ = self.items.push(v);
                 None
             }
         }
@@ -543,8 +665,8 @@ impl<T: Eq + Hash> HashSet<T> {
             None => None,
         }
     }
-    pub fn retain<F: FnMut(&T) -> bool>(&mut self, f: F) {
-        self.items.retain(f);
+    pub fn retain<F: FnMut(&T) -> bool>(&mut self, mut f: F) {
+        self.items.retain_mut(|e| f(e));
     }
     pub fn difference<'a>(&'a self, other: &'a HashSet<T>) -> hash_set::Difference<'a, T> {
         hash_set::Difference { iter: self.iter(), other }
@@ -560,8 +682,8 @@ impl<T: Eq + Hash> HashSet<T> {
     }
     pub fn is_subset(&self, other: &HashSet<T>) -> bool {
         let mut i = 0;
-        while i < self.items.len() {
-            if !other.contains(&self.items[i]) {
+        while i < CAP {
+            if matches!(self.items.at(i), Some(e) if !other.contains(e)) {
                 return false;
             }
             i += 1;
@@ -573,8 +695,8 @@ impl<T: Eq + Hash> HashSet<T> {
     }
     pub fn is_disjoint(&self, other: &HashSet<T>) -> bool {
         let mut i = 0;
-        while i < self.items.len() {
-            if other.contains(&self.items[i]) {
+        while i < CAP {
+            if matches!(self.items.at(i), Some(e) if other.contains(e)) {
                 return false;
             }
             i += 1;
@@ -616,7 +738,13 @@ impl<T: Eq + Hash> Eq for HashSet<T> {}
 
 impl<T: fmt::Debug> fmt::Debug for HashSet<T> {
     fn fmt(&self, f: &mut fmt::Formatter<'_>) -> fmt::Result {
-        f.debug_set().entries(self.items.iter()).finish()
+        let mut m = f.debug_set();
+        for i in 0..CAP {
+            if let Some(e) = self.items.at(i) {
+                let _ = m.entry(e);
+            }
+        }
+        m.finish()
     }
 }
 
@@ -625,7 +753,7 @@ impl<T> IntoIterator for HashSet<T> {
     type IntoIter = hash_set::IntoIter<T>;
     fn into_iter(self) -> Self::IntoIter {
         let order = Order::new(self.items.len());
-        hash_set::IntoIter { items: self.items.into_iter().map(Some).collect(), order }
+        hash_set::IntoIter { items: self.items, order }
     }
 }
 
@@ -638,34 +766,46 @@ impl<'a, T> IntoIterator for &'a HashSet<T> {
 }
 
 pub mod hash_set {
-    use super::{HashSet, Order};
+    use super::{HashSet, Order, Slots};
     use std::hash::Hash;
 
-    #[derive(Clone, Debug)]
+    #[derive(Clone)]
     pub struct Iter<'a, T> {
-        pub(super) items: &'a [T],
+        pub(super) items: &'a Slots<T>,
         pub(super) order: Order,
     }
     impl<'a, T> Iterator for Iter<'a, T> {
         type Item = &'a T;
         fn next(&mut self) -> Option<&'a T> {
-            match self.order.next() {
-                Some(i) => Some(&self.items[i]),
-                None => None,
+            loop {
+                match self.order.next() {
+                    Some(i) => {
+                        if let Some(e) = self.items.at(i) {
+                            return Some(e);
+                        }
+                    }
+                    None => return None,
+                }
             }
         }
     }
 
     pub struct IntoIter<T> {
-        pub(super) items: Vec<Option<T>>,
+        pub(super) items: Slots<T>,
         pub(super) order: Order,
     }
     impl<T> Iterator for IntoIter<T> {
         type Item = T;
         fn next(&mut self) -> Option<T> {
-            match self.order.next() {
-                Some(i) => self.items[i].take(),
-                None => None,
+            loop {
+                match self.order.next() {
+                    Some(i) => {
+                        if let Some(e) = self.items.take_at(i) {
+                            return Some(e);
+                        }
+                    }
+                    None => return None,
+                }
             }
         }
     }
